@@ -6,8 +6,12 @@ package main
 import (
 	"bytes"
 	"fmt"
+	"math/big"
+	"os"
 	"runtime"
+	"runtime/debug"
 	"strings"
+	"sync"
 
 	"encoding/hex"
 	"reflect"
@@ -240,15 +244,17 @@ func treeMutateAll(b []byte, maxLeaves int) [][]byte {
 // typed_recode; direct oracle: an accepted input re-encodes to itself.
 func typedCheck(c *vh.Ctx, m *vh.Model, e rlptypes.Entry, class string, b []byte, mustAccept bool) {
 	hx := vh.Hex(b)
-	var observed string
+	var observed, again string
 	var b2 []byte
 	accepted := false
 	p, pv := vh.CatchPanic(func() {
 		ptr := reflect.New(e.Type)
-		if err := rlp.DecodeBytes(b, ptr.Interface()); err != nil {
+		in := append([]byte{}, b...)
+		if err := rlp.DecodeBytes(in, ptr.Interface()); err != nil {
 			observed = "err"
 			return
 		}
+		scribbleBytes(in) // the decoded value must not depend on the caller's input buffer
 		var err error
 		b2, err = rlp.EncodeToBytes(ptr.Interface())
 		if err != nil {
@@ -257,6 +263,23 @@ func typedCheck(c *vh.Ctx, m *vh.Model, e rlptypes.Entry, class string, b []byte
 		}
 		accepted = true
 		observed = "ok " + vh.Hex(b2)
+		// ownership: the caller edits everything it got back (decoded byte slices, the
+		// encoder's output) in place; a later decode of the same input is unaffected
+		scribbleValue(ptr.Elem(), 0)
+		keep := append([]byte{}, b2...)
+		scribbleBytes(b2)
+		ptr2 := reflect.New(e.Type)
+		if err := rlp.DecodeBytes(b, ptr2.Interface()); err != nil {
+			again = "err"
+			b2 = keep
+			return
+		}
+		b3, err := rlp.EncodeToBytes(ptr2.Interface())
+		again = "ok " + vh.Hex(b3)
+		if err != nil {
+			again = "encode-err " + err.Error()
+		}
+		b2 = keep
 	})
 	if p {
 		observed = fmt.Sprintf("panic %v", pv)
@@ -272,8 +295,65 @@ func typedCheck(c *vh.Ctx, m *vh.Model, e rlptypes.Entry, class string, b []byte
 		c.Violate("typed-noncanonical-accept/"+e.Name+"/"+hx, "typed decoding accepts an input that is not the encoding of the value it yields",
 			map[string]string{"type": e.Name, "input": hx, "reencoded": vh.Hex(b2)})
 	}
+	if accepted && again != observed {
+		c.Violate("typed-decoded-value-shared/"+e.Name+"/"+hx, "after the caller edited an earlier decoded value / encoder output in place, decoding the same input again gives a different result",
+			map[string]string{"type": e.Name, "input": hx, "first": observed, "after_edit": again})
+	}
 	if mustAccept && !accepted {
 		c.Violate("typed-roundtrip/"+e.Name+"/"+hx, "the encoding of a valid value is rejected", map[string]string{"type": e.Name, "input": hx, "observed": observed})
+	}
+}
+
+// scribbleBytes / scribbleItem / scribbleValue: what a caller may do with memory it
+// owns (its input buffer, a decoded value, the encoder's output): overwrite it in place.
+func scribbleBytes(b []byte) {
+	for i := range b {
+		b[i] ^= 0xff
+	}
+}
+
+func scribbleItem(v interface{}) {
+	switch x := v.(type) {
+	case []byte:
+		scribbleBytes(x)
+	case []interface{}:
+		for _, e := range x {
+			scribbleItem(e)
+		}
+	}
+}
+
+func scribbleValue(v reflect.Value, depth int) {
+	if depth > 12 {
+		return
+	}
+	switch v.Kind() {
+	case reflect.Ptr, reflect.Interface:
+		if !v.IsNil() {
+			scribbleValue(v.Elem(), depth+1)
+		}
+	case reflect.Struct:
+		if v.Type() == reflect.TypeOf(big.Int{}) {
+			return
+		}
+		for i := 0; i < v.NumField(); i++ {
+			scribbleValue(v.Field(i), depth+1)
+		}
+	case reflect.Slice:
+		if v.Type().Elem().Kind() == reflect.Uint8 {
+			scribbleBytes(v.Bytes())
+			return
+		}
+		for i := 0; i < v.Len(); i++ {
+			scribbleValue(v.Index(i), depth+1)
+		}
+	case reflect.Array:
+		if v.Type().Elem().Kind() == reflect.Uint8 {
+			return
+		}
+		for i := 0; i < v.Len(); i++ {
+			scribbleValue(v.Index(i), depth+1)
+		}
 	}
 }
 
@@ -299,7 +379,10 @@ type obs struct{ exact, split, count string }
 func observe(c *vh.Ctx, b []byte) (o obs, val interface{}, ok bool) {
 	var v interface{}
 	p, pv := vh.CatchPanic(func() {
-		if err := rlp.DecodeBytes(b, &v); err != nil {
+		in := append([]byte{}, b...)
+		err := rlp.DecodeBytes(in, &v)
+		scribbleBytes(in) // the decoded value must not depend on the caller's input buffer
+		if err != nil {
 			o.exact = "err"
 		} else {
 			o.exact = "ok " + render(v)
@@ -392,7 +475,57 @@ func checkInput(c *vh.Ctx, m *vh.Model, class string, b []byte) {
 			c.Violate("noncanonical-accept/"+hx, "decoded value does not re-encode to the input",
 				map[string]string{"input": hx, "decoded": render(v), "reencoded": vh.Hex(enc)})
 		}
+		// ownership: a decoded value and the encoder's output belong to the caller; editing
+		// them in place changes nothing a later call returns (the model has value semantics)
+		first := render(v)
+		scribbleItem(v)
+		scribbleBytes(enc)
+		var v2 interface{}
+		err2 := rlp.DecodeBytes(b, &v2)
+		if err2 != nil || render(v2) != first {
+			c.Violate("decoded-value-shared/"+hx, "after the caller edited an earlier decoded value in place, decoding the same input again gives a different value",
+				map[string]string{"input": hx, "first": first, "after_edit": render(v2), "err": fmt.Sprint(err2)})
+		}
+		if sw := streamWalkScribble(b); sw != "ok "+first {
+			c.Violate("stream-value-shared/"+hx, "Stream.Bytes results edited in place change what a later Stream returns",
+				map[string]string{"input": hx, "first": first, "after_edit": sw})
+		}
 	}
+}
+
+// streamWalkScribble: walk b with the Stream API, overwriting every Stream.Bytes result
+// in place, then walk it again with a fresh Stream and return what that one yields.
+func streamWalkScribble(b []byte) string {
+	s := rlp.NewStream(bytes.NewReader(b), uint64(len(b)))
+	var walk func() error
+	walk = func() error {
+		k, _, err := s.Kind()
+		if err != nil {
+			return err
+		}
+		if k == rlp.List {
+			if _, err := s.List(); err != nil {
+				return err
+			}
+			for {
+				err := walk()
+				if err == rlp.EOL {
+					break
+				}
+				if err != nil {
+					return err
+				}
+			}
+			return s.ListEnd()
+		}
+		bs, err := s.Bytes()
+		scribbleBytes(bs)
+		return err
+	}
+	if p, pv := vh.CatchPanic(func() { walk() }); p {
+		return fmt.Sprintf("panic %v", pv)
+	}
+	return streamWalk(b, true)
 }
 
 // structured values
@@ -600,6 +733,11 @@ func main() {
 			}
 		}
 	}
+	// 6. first use of a type from several goroutines at once (the typecache is shared
+	//    process state): fresh struct types, 8 workers behind a barrier, each encodes the
+	//    value, decodes the bytes into a new value and re-encodes; nobody may panic and
+	//    everybody gets what a later single-threaded call and the item-level model give
+	concurrentFirstUse(c, m)
 	c.Assume("Go reflect and the rlp typecache are exercised only through interface{}/[]byte/[]uint64 targets in this item-level check; typed consensus structures are covered by the typed layer")
 	c.Finish()
 }
@@ -620,4 +758,152 @@ func normalize(v interface{}) interface{} {
 		return l
 	}
 	return v
+}
+
+var freshCounter int
+
+// freshType: a struct type no rlp call has seen yet (unique field names), over the
+// field kinds of the consensus types; nested fresh struct / pointer / slice fields make
+// the generator publish more than one new typecache entry per first use.
+func freshType(c *vh.Ctx, depth int) reflect.Type {
+	palette := []reflect.Type{
+		reflect.TypeOf(uint64(0)), reflect.TypeOf(uint8(0)), reflect.TypeOf([]byte{}), reflect.TypeOf(new(big.Int)),
+		reflect.TypeOf(""), reflect.TypeOf([4]byte{}), reflect.TypeOf([]uint64{}), reflect.TypeOf(false),
+		reflect.TypeOf([20]byte{}), reflect.TypeOf([][]byte{}),
+	}
+	n := 1 + c.Rng.Intn(5)
+	fs := make([]reflect.StructField, 0, n)
+	for i := 0; i < n; i++ {
+		freshCounter++
+		var t reflect.Type
+		switch {
+		case depth > 0 && c.Rng.Chance(25):
+			t = freshType(c, depth-1)
+			switch c.Rng.Intn(3) {
+			case 1:
+				t = reflect.PtrTo(t)
+			case 2:
+				t = reflect.SliceOf(t)
+			}
+		default:
+			t = palette[c.Rng.Intn(len(palette))]
+		}
+		fs = append(fs, reflect.StructField{Name: fmt.Sprintf("F%dx%d", c.Seed%1000003, freshCounter), Type: t})
+	}
+	return reflect.StructOf(fs)
+}
+
+func concurrentFirstUse(c *vh.Ctx, m *vh.Model) {
+	const workers = 8
+	rounds := c.Scale(60, 600)
+	for r := 0; r < rounds; r++ {
+		t := freshType(c, 2)
+		val := rlptypes.Fill(c.Rng, t, 3)
+		results := make([]string, workers)
+		var start, done sync.WaitGroup
+		start.Add(1)
+		for w := 0; w < workers; w++ {
+			done.Add(1)
+			go func(w int) {
+				defer done.Done()
+				defer func() {
+					if p := recover(); p != nil {
+						results[w] = fmt.Sprintf("panic %v", p)
+						if os.Getenv("C11_DEBUG") != "" {
+							fmt.Fprintln(os.Stderr, string(debug.Stack()))
+						}
+					}
+				}()
+				start.Wait()
+				var enc []byte
+				var err error
+				if w%2 == 0 { // half of the workers meet the type in the encoder, half in the decoder
+					enc, err = rlp.EncodeToBytes(val.Interface())
+					if err != nil {
+						results[w] = "encode-err " + err.Error()
+						return
+					}
+				} else {
+					enc = nil
+				}
+				if enc == nil {
+					// decoder first: the zero value's encoding is known without the typecache only
+					// for the empty list, so decode an item-level copy of the value instead
+					enc = firstUseInput(val)
+				}
+				ptr := reflect.New(t)
+				if err := rlp.DecodeBytes(enc, ptr.Interface()); err != nil {
+					results[w] = "decode-err " + err.Error()
+					return
+				}
+				re, err := rlp.EncodeToBytes(ptr.Interface())
+				if err != nil {
+					results[w] = "encode-err " + err.Error()
+					return
+				}
+				results[w] = "ok " + vh.Hex(re)
+			}(w)
+		}
+		start.Done()
+		done.Wait()
+		// afterwards, single-threaded: the reference result
+		enc, err := rlp.EncodeToBytes(val.Interface())
+		if err != nil {
+			c.Fatal("encode of fresh type failed: %v", err)
+		}
+		want := "ok " + vh.Hex(enc)
+		c.Eval(fmt.Sprintf("concurrent-first-use/fields%d", t.NumField()), vh.Hex(enc)+t.String())
+		var asItem interface{}
+		if err := rlp.DecodeBytes(enc, &asItem); err == nil {
+			c.Correspond("EncodeToBytes(fresh struct, concurrent first use)~encode", render(asItem), vh.Hex(enc), m.Ask("encode "+render(asItem)))
+		} else {
+			c.Violate("roundtrip/"+vh.Hex(enc), "encoding of a struct value is rejected as an item", map[string]string{"encoding": vh.Hex(enc)})
+		}
+		for w, got := range results {
+			if got != want {
+				sig := "concurrent-first-use/differs"
+				if strings.HasPrefix(got, "panic") {
+					sig = "concurrent-first-use/panic"
+				}
+				c.Violate(sig, "encoding/decoding a value of a type for the first time from several goroutines at once panics or gives a different result than a later call",
+					map[string]interface{}{"type": t.String(), "value_encoding": vh.Hex(enc), "worker": w, "observed": got, "expected": want, "workers": workers, "round": r})
+				break
+			}
+		}
+	}
+}
+
+// firstUseInput: the encoding of val computed without touching the typecache entry
+// of its (fresh) struct type: fields are encoded one by one and wrapped by hand.
+func firstUseInput(val reflect.Value) []byte {
+	var payload []byte
+	for i := 0; i < val.NumField(); i++ {
+		f := val.Field(i)
+		anon := func(t reflect.Type) bool { return t.Kind() == reflect.Struct && t.Name() == "" }
+		if anon(f.Type()) || ((f.Kind() == reflect.Ptr || f.Kind() == reflect.Slice) && anon(f.Type().Elem())) {
+			switch f.Kind() {
+			case reflect.Struct:
+				payload = append(payload, firstUseInput(f)...)
+			case reflect.Ptr:
+				if f.IsNil() {
+					payload = append(payload, 0xc0)
+				} else {
+					payload = append(payload, firstUseInput(f.Elem())...)
+				}
+			default:
+				var inner []byte
+				for j := 0; j < f.Len(); j++ {
+					inner = append(inner, firstUseInput(f.Index(j))...)
+				}
+				payload = append(payload, append(canonHeader(true, inner), inner...)...)
+			}
+			continue
+		}
+		b, err := rlp.EncodeToBytes(f.Interface())
+		if err != nil {
+			panic(err)
+		}
+		payload = append(payload, b...)
+	}
+	return append(canonHeader(true, payload), payload...)
 }
